@@ -44,7 +44,12 @@ HandedValues(Pp, kids, e) == LET idx == SeqOfSet(Handed(Pp))
    the span of the error symbol, then the other handed values *)
 ProdValue(Pp, kids, e) ==
   LET hv == HandedValues(Pp, kids, e) IN
-  IF Pp.form = "none"
+  IF Pp.form = "vec0" THEN <<"v">>                                  \* X*  matching nothing
+  ELSE IF Pp.form = "vec1" THEN <<"v", kids[1].v>>                  \* X+  first item
+  ELSE IF Pp.form = "vecpush" THEN kids[1].v \o <<kids[2].v>>       \* X+  next item, input order
+  ELSE IF Pp.form = "some" THEN <<"s", kids[1].v>>                  \* X?  present
+  ELSE IF Pp.form = "noneo" THEN <<"o">>                            \* X?  absent
+  ELSE IF Pp.form = "none"
   THEN (IF Pp.unit THEN <<"u">>
         ELSE IF Len(hv) = 1 THEN hv[1]
         ELSE IF Len(hv) = 0 THEN <<"u">> ELSE <<"t">> \o hv)
